@@ -597,3 +597,38 @@ def translate_rabbit(repo: str) -> str:
         f"  | Some d => let millis := {millis} in if {test} then Some millis else None",
         "  | None => None",
         "  end.", ""])
+
+
+
+class FnRedisMaint(Fn):
+    def expr(self, e: ast.AST) -> tuple[str, str]:
+        if isinstance(e, ast.Call) and ast.unparse(e.func) == "datetime.fromtimestamp" and len(e.args) == 1 and not e.keywords:
+            a, ta = self.expr(e.args[0])
+            self.want(ta, "Z", e)
+            return f"({a} * 1000000)", "Z"           # the score of the processing set is a whole number of seconds
+        return super().expr(e)
+
+
+def translate_redis_maintenance(repo: str) -> str:
+    """coq/GenRedisMaint.v: the test by which RedisMessageBroker.maintenance decides that a message marked as processing has
+    timed out (and is handed back by reject)."""
+    rel = "repid/connections/redis/message_broker.py"
+    tree = ast.parse(Path(repo, rel).read_text())
+    node = find_func(tree, ["RedisMessageBroker", "maintenance"])
+    if not any(isinstance(st, ast.Assign) and ast.unparse(st) == "now = datetime.now()" for st in node.body):
+        raise TranslateError("maintenance: `now = datetime.now()` not found")
+    tests = [n for n in ast.walk(node) if isinstance(n, ast.If) and "execution_timeout" in ast.unparse(n.test)]
+    if len(tests) != 1:
+        raise TranslateError(f"maintenance: {len(tests)} tests on execution_timeout (one expected)")
+    cond = tests[0]
+    if "self.reject(" not in "\n".join(ast.unparse(st) for st in cond.body) or cond.orelse:
+        raise TranslateError("maintenance: the timed-out branch does not reject the message (or has an else)")
+    fn = FnRedisMaint("maintenance", "bool", {"params": "p"}, {"now": ("now", "Z"), "processing_start_time": ("start_s", "Z")})
+    c, t = fn.expr(cond.test)
+    fn.want(t, "bool", cond.test)
+    return "\n".join([
+        "(* GENERATED by harness/translate.py from /repo's current source - do not edit. *)",
+        "From Repid Require Import Base Sched.", "",
+        f"(* {rel} RedisMessageBroker.maintenance: a message taken at second `start_s` is handed back (reject) iff *)",
+        "Definition gen_redis_timed_out (p : params) (start_s now : Z) : bool :=",
+        f"  {c}.", ""])
